@@ -106,6 +106,30 @@ fn cases(tier: Tier) -> &'static Vec<Case> {
                 }
             }
         }
+        // ---- a complete body followed by more bytes already in the socket (pipelined request,
+        // surplus bytes) when the handler lets go of the request
+        for n in [1usize, 1024, 1025, 2047, 4096, 8191, 8192, 8193, 20000] {
+            for expect in [false, true] {
+                for is_chunked in [false, true] {
+                    for (tn, tail) in [("request", get("/next")), ("surplus", b"surplus-bytes-without-end".to_vec()), ("long-surplus", payload(9000))] {
+                        for (_hn, plan) in &hs {
+                            let mut bytes = if is_chunked {
+                                format!("POST /b HTTP/1.1\r\nHost: t\r\nTransfer-Encoding: chunked\r\n{}\r\n", if expect { "Expect: 100-continue\r\n" } else { "" }).into_bytes()
+                            } else {
+                                format!("POST /b HTTP/1.1\r\nHost: t\r\nContent-Length: {}\r\n{}\r\n", n, if expect { "Expect: 100-continue\r\n" } else { "" }).into_bytes()
+                            };
+                            if is_chunked {
+                                bytes.extend_from_slice(&chunked(&payload(n), &[n.max(1)], SizeSyntax::Lower));
+                            } else {
+                                bytes.extend_from_slice(&payload(n));
+                            }
+                            bytes.extend_from_slice(&tail);
+                            v.push(mk(&format!("body-then-{}", tn), bytes, plan, Step::CloseWrite));
+                        }
+                    }
+                }
+            }
+        }
         // ---- chunk-size lines
         for digits in [1usize, 8, 15, 16, 17, 40] {
             for lead in ["f", "7", "0"] {
@@ -333,7 +357,7 @@ impl Check for C14 {
     fn rule(&self, tier: Tier) -> String {
         let classes: std::collections::BTreeSet<String> = cases(tier).iter().map(|c| c.class.clone()).collect();
         format!(
-            "adversarial conversations in {} classes ({:?}...): Content-Length from 0 to 10^30 x bytes actually sent {{0, 3, all}}; chunk-size lines of 1..40 hex digits truncated at every syntactic position; a chunked conversation cut at every offset; 10^3{} header lines; lines of {} bytes; NUL/control/8-bit/CR/LF/SP/colon at every position of a head; TE request header values of the malformed-q class; client reset/closed before the server looks at the connection (TCP-like and UNIX-like) - crossed with handlers read none / 1 byte / all x respond / drop; {} scenarios, each run in a worker process with a 6 GiB address-space cap; oracle: the worker survives, no panic passes through tiny_http code, largest single allocation <= 64 KiB + 16 x bytes received, peak heap <= harness footprint + 64 KiB + 64 x bytes received",
+            "adversarial conversations in {} classes ({:?}...): Content-Length from 0 to 10^30 x bytes actually sent {{0, 3, all}}; chunk-size lines of 1..40 hex digits truncated at every syntactic position; a chunked conversation cut at every offset; 10^3{} header lines; lines of {} bytes; NUL/control/8-bit/CR/LF/SP/colon at every position of a head; TE request header values of the malformed-q class; client reset/closed before the server looks at the connection (TCP-like and UNIX-like); a complete body of {{1..20000}} bytes (declared or chunked, with or without Expect) followed in the same segment by a pipelined request or surplus bytes - crossed with handlers read none / 1 byte / all x respond / drop; {} scenarios, each run in a worker process with a 6 GiB address-space cap; oracle: the worker survives, no panic passes through tiny_http code, largest single allocation <= 64 KiB + 16 x bytes received, peak heap <= harness footprint + 64 KiB + 64 x bytes received",
             classes.len(), classes.iter().take(6).collect::<Vec<_>>(), if full(tier) { "/10^4" } else { "" }, if full(tier) { "1 MiB" } else { "128 KiB" }, cases(tier).len()
         )
     }
